@@ -44,7 +44,7 @@ def scn(name, world, roots, setup=(), **kw):
 # gate sets: which hook kinds are scheduling points (everything else is passed through without a choice)
 CORE = ["start", "exit", "child-start", "fork-parent", "select", "tok-read", "cheat-read", "tok-write",
         "lock-try", "lock-wait", "unlock", "select-order", "script"]
-DB = ["txn-begin", "init-check", "init-begin"]
+DB = ["txn-begin", "init-check", "init-begin", "txn-upgrade"]
 LOCKS = ["start", "exit", "select", "lock-try", "lock-wait", "unlock", "script", "txn-begin", "fork-parent", "child-start"]
 TOKENS = ["start", "exit", "child-start", "fork-parent", "select", "tok-read", "cheat-read", "tok-write", "select-order",
           "script", "lock-wait", "unlock"]
